@@ -44,7 +44,7 @@ def run(pid, ctx, v, families, footprint, monitor=None, clause_filter=None, kind
                 mv = res["mon"].get(mon_name)
                 if mv is not None and clause_filter is not None and not clause_filter(_clause(mv)):
                     mv = None
-                mine = [d for d in res["corr"] if set(x % 1000 for x in d[0][1]) & footprint]
+                mine = [d for d in res["corr"] if set(x % 1000 for x in d[1]) & footprint]
                 if mv is not None:
                     cov["monitor_rejections"] += 1
                     step, key, clause, wit = _viol(mv)
@@ -55,10 +55,10 @@ def run(pid, ctx, v, families, footprint, monitor=None, clause_filter=None, kind
                 if mine:
                     cov["correspondence_disagreements"] += len(mine)
                     d = mine[0]
-                    step = d[0][0]
+                    step = d[0]
                     v.break_("correspondence (model vs implementation) diverges on %s: family %s seed %d history %d step %d: %s"
-                             % ("/".join(tag_names(d[0][1])), fam, seed, hi, step, _short(d[1])),
-                             _replay(fam, seed, n, length, hi, step, r["lines"][hi], "corr_all: model expected %s" % _short(d[1])))
+                             % ("/".join(tag_names(d[1])), fam, seed, hi, step, _short(d[2])),
+                             _replay(fam, seed, n, length, hi, step, r["lines"][hi], "corr_all: model expected %s" % _short(d[2])))
             if not cov["samples"] and r["lines"]:
                 defs, steps = split_history(r["lines"][0])
                 pick = [s for s in steps if s.startswith("(OTx")][-3:]
